@@ -32,7 +32,7 @@ pub fn check(tier: Tier) -> Check {
         also_rel: false,
         property: "C01",
         level: "exploration",
-        rule: "presence subsets of every optional field of ConnectOpts (quick: all subsets without a will, all will-only subsets against empty/full backgrounds, all subsets of size <=2 and >=n-2; thorough: all 2^14 x (1 + 2^9)), AuthOpts, PublishOpts, SubscribeOpts/SubscriptionOpts (all 36 option bytes per filter, 0..n filters), UnsubscribeOpts, DisconnectOpts (all 29 reasons); boundary values per field (lengths 0,1,127,128,16383,16384,65535, multi-byte UTF-8, integer extremes) against empty and full backgrounds; sweeps making property length and remaining length take every value across the 1/2/3(/4)-byte variable byte integer switches; a five-request session under every write script with <= K deviations (accept 1 byte / half / Pending) and the uniform 1-byte and Pending-first scripts. Every case is encoded by the library, decoded by the independent strict decoder and compared field by field; distinct_nontrivial = distinct cases in which a packet reached the wire".into(),
+        rule: "presence subsets of every optional field of ConnectOpts (quick: all subsets without a will, all will-only subsets against empty/full backgrounds, all subsets of size <=3 and >=n-3; thorough: all 2^14 x (1 + 2^9)), AuthOpts, PublishOpts, SubscribeOpts/SubscriptionOpts (all 36 option bytes per filter, 0..n filters), UnsubscribeOpts, DisconnectOpts (all 29 reasons); boundary values per field (lengths 0,1,127,128,16383,16384,65535, multi-byte UTF-8, integer extremes) against empty and full backgrounds; sweeps making property length and remaining length take every value across the 1/2/3(/4)-byte variable byte integer switches; a five-request session under every write script with <= K deviations (accept 1 byte / half / Pending) and the uniform 1-byte and Pending-first scripts. Every case is encoded by the library, decoded by the independent strict decoder and compared field by field; distinct_nontrivial = distinct cases in which a packet reached the wire".into(),
         assumptions: vec![
             "values MQTT 5 can represent; a will is absent or has topic and payload; will-only options only with a will".into(),
             "AuthOpts::reason_string cannot be used through the public API (it returns ()), so AUTH reason strings are not enumerated".into(),
@@ -155,6 +155,16 @@ fn connect_masks(full: bool) -> Vec<u32> {
         for j in 0..i {
             seen.insert((1 << i) | (1 << j));
             seen.insert(all & !(1 << i) & !(1 << j));
+        }
+    }
+    // all subsets of size 3 and n-3 (a will-only option needs the will bit, so pairs of options
+    // around a will are triples)
+    for i in 0..24 {
+        for j in 0..i {
+            for k in 0..j {
+                seen.insert((1 << i) | (1 << j) | (1 << k));
+                seen.insert(all & !((1 << i) | (1 << j) | (1 << k)));
+            }
         }
     }
     for m in seen {
